@@ -217,6 +217,7 @@ def build_pool():
     add('MPRY2', G.MPRYGate(2), 'oq')
     add('MPRZ2', G.MPRZGate(2), 'oq')
     add('ACP33', G.ArbitraryCPhaseGate([3, 3]), 'oq')
+    add('ACP23', G.ArbitraryCPhaseGate([2, 3]), 'oq')
     add('RSU3_1', G.RSU3Gate(1), 'oq')
     # composed gates
     add('C(RZ)', G.ControlledGate(G.RZGate()), 'composed', 'exact')
@@ -522,41 +523,6 @@ def x_matmul(A, B):
     return out
 
 
-def digits(i, radixes):
-    ds = []
-    for r in reversed(radixes):
-        ds.append(i % r)
-        i //= r
-    return ds[::-1]
-
-
-def x_embed(G, loc, radixes):
-    """Embed(G, loc): gate qudit k is circuit qudit loc[k]; identity elsewhere;
-    qudit 0 is the most significant digit (written here by digit arithmetic,
-    independent of UnitaryBuilder)."""
-    dim = 1
-    for r in radixes:
-        dim *= r
-    grad = [radixes[q] for q in loc]
-    zero = (Fraction(0), Fraction(0))
-    out = [[zero] * dim for _ in range(dim)]
-    rest = [q for q in range(len(radixes)) if q not in loc]
-    for i in range(dim):
-        di = digits(i, radixes)
-        gi = 0
-        for q, r in zip(loc, grad):
-            gi = gi * r + di[q]
-        for j in range(dim):
-            dj = digits(j, radixes)
-            if any(di[q] != dj[q] for q in rest):
-                continue
-            gj = 0
-            for q, r in zip(loc, grad):
-                gj = gj * r + dj[q]
-            out[i][j] = G[gi][gj]
-    return out
-
-
 def x_is_unitary(G) -> bool:
     n = len(G)
     Gd = [[(G[j][i][0], -G[j][i][1]) for j in range(n)] for i in range(n)]
@@ -566,18 +532,12 @@ def x_is_unitary(G) -> bool:
                for i in range(n) for j in range(n))
 
 
-def x_to_np(M):
-    return np.array([[complex(float(a), float(b)) for a, b in row]
-                     for row in M])
-
-
-def exact_circuit(circuit, x):
-    """(U, [dU_k]) as exact Gaussian-rational matrices, or None."""
-    radixes = list(circuit.radixes)
-    dim = circuit.dim
-    one, zero = (Fraction(1), Fraction(0)), (Fraction(0), Fraction(0))
-    ident = [[one if i == j else zero for j in range(dim)] for i in range(dim)]
-    mats = []       # per op: (embedded exact unitary, [embedded exact grads])
+def exact_gates(circuit, x):
+    """Per operation (location, exact gate matrix, [exact derivatives]) as
+    Gaussian rationals, or None when some gate is not exactly rational at
+    this point.  Only the GATE level is rationalised here; the circuit product
+    is computed by the Lean model (`xcirc`, Model/CostCirc.lean)."""
+    out = []
     k = 0
     for op in circuit:
         p = list(x[k:k + op.num_params])
@@ -601,23 +561,16 @@ def exact_circuit(circuit, x):
                 if r is None or any((2 * den * den) % z.denominator
                                     for row in r for e in row for z in e):
                     return None
-                gs.append(x_embed(r, list(op.location), radixes))
-        mats.append((x_embed(G, list(op.location), radixes), gs))
-    U = ident
-    for E, _ in mats:
-        U = x_matmul(E, U)
-    dUs = []
-    for a, (_, gs) in enumerate(mats):
-        for dE in gs:
-            M = ident
-            for b, (E, _) in enumerate(mats):
-                M = x_matmul(dE if a == b else E, M)
-            dUs.append(M)
-    return U, dUs
+                gs.append(r)
+        out.append((list(op.location), G, gs))
+    return out
 
 
-def x_scale(z, M):
-    return [[c_mul(z, e) for e in row] for row in M]
+def parse_cmat(txt: str, n: int, m: int):
+    """`re im re im ...` (exact) -> numpy complex (n, m)."""
+    v = [float(Fraction(x)) for x in txt.split()]
+    a = np.array(v[0::2]) + 1j * np.array(v[1::2])
+    return a.reshape(n, m)
 
 
 # ---------------------------------------------------------------- the check
@@ -626,7 +579,8 @@ class Run:
         self.ck = ck
         self.rng = ck.rng
         self.nrng = np.random.default_rng(ck.rng.getrandbits(63))
-        self.lean_req: list[tuple] = []    # (lines, callback)
+        self.lean_req: list[tuple] = []
+        self.x_req: list[tuple] = []
         self.maxdiff: dict[str, float] = {}
 
     # ....................................................... bookkeeping
@@ -892,87 +846,133 @@ class Run:
 
     # ..................................................... exact-point case
     def exact_case(self, circuit, radixes, ops, xs, kind, tag, grads=True):
-        from bqskit.ir.opt.cost.functions import (
-            HilbertSchmidtCostGenerator, HilbertSchmidtResidualsGenerator)
+        """Queue two `xcirc` requests (exactly phase-equal / exactly perturbed
+        target).  The model multiplies the circuit out, derives the target
+        from ITS exact unitary and returns both; the engine is evaluated on
+        that target in settle_lean."""
         ck = self.ck
-        ex = exact_circuit(circuit, xs)
-        if ex is None:
+        gates = exact_gates(circuit, xs)
+        if gates is None:
             ck.bump('exact_points', 'not-rational')
             return
-        Ux, dUx = ex
-        Uf = np.array(circuit.get_unitary(xs))
-        replay = {'section': 'exact', 'radixes': list(radixes),
-                  'ops': [[k, list(l)] for k, l in ops], 'params': xs,
-                  'target_kind': kind}
-        if np.max(np.abs(x_to_np(Ux) - Uf)) > 1e-10:
-            self.bad('exact-simulator-vs-get_unitary',
-                     'the digit-arithmetic product of the gate unitaries '
-                     'differs from circuit.get_unitary (C06 territory; the '
-                     'exact reference of this check is unusable)', replay,
-                     found=False)
-            return
-        n = len(Ux)
+        n = circuit.dim
+        has_vu = any('vu' in pool()[k][1] for k, _ in ops)
+        nparams = sum(len(gs) for _, _, gs in gates)
+        nd = 0 if has_vu else min(3, nparams)
+        # derivative matrices are only needed for the first nd parameters
+        left = nd
+        optxt = []
+        for loc, G, gs in gates:
+            use = gs[:left]
+            left -= len(use)
+            optxt.append(' | ' + ','.join(map(str, loc)) + f' {len(use)} '
+                         + mat_tokens(G)
+                         + ''.join(' ' + mat_tokens(d) for d in use))
+        name = {'U': 'unitary', 'S': 'state', 'Y': 'system'}[kind]
         for flavour in ('phase', 'pert'):
             c_, s_ = self.rng.choice(CIRCLE)
-            W = x_scale((c_, s_), Ux)
             cols = None
             if kind == 'Y':
                 cols = sorted(self.rng.sample(range(n), self.rng.randint(1, n)))
+            pert = '-'
             if flavour == 'pert':
-                # W <- W.G with G an exact Givens rotation of columns a, b:
+                # W <- W.G with G an exact Givens rotation of columns ca, cb:
                 # |<W, U>| drops below K for every target kind
                 a_, b_ = self.rng.choice(CIRCLE[2:10])
                 ca = 0 if kind == 'S' else (
                     self.rng.choice(cols) if cols else self.rng.randrange(n))
                 cb = self.rng.choice([j for j in range(n) if j != ca])
-                W2 = [list(row) for row in W]
-                for i in range(n):
-                    wa, wb = W[i][ca], W[i][cb]
-                    W2[i][ca] = (a_ * wa[0] + b_ * wb[0], a_ * wa[1] + b_ * wb[1])
-                    W2[i][cb] = (a_ * wb[0] - b_ * wa[0], a_ * wb[1] - b_ * wa[1])
-                W = W2
-            Wf = x_to_np(W)
-            exact = {}
-            if kind == 'U':
-                tg = Target('U', radixes, T=Wf)
-                exact['T'] = W
-            elif kind == 'S':
-                tg = Target('S', radixes, psi=Wf[:, 0])
-                exact['psi'] = [[row[0]] for row in W]
-            else:
-                E = np.eye(n, dtype=np.complex128)
-                tg = Target('Y', radixes,
-                            pairs=[(E[:, j], Wf[:, j]) for j in cols])
-                zero = (Fraction(0), Fraction(0))
-                exact['T'] = [[W[i][j] if j in cols else zero
-                               for j in range(n)] for i in range(n)]
-            cg = HilbertSchmidtCostGenerator().gen_cost(circuit, tg.obj)
-            rg = HilbertSchmidtResidualsGenerator().gen_cost(circuit, tg.obj)
-            nat = {'cost': cg.get_cost(xs),
-                   'resid': np.array(rg.get_residuals(xs))}
-            has_vu = any('vu' in pool()[k][1] for k, _ in ops)
-            sel = list(range(len(dUx)))[:3] if not has_vu else []
-            if sel and flavour == 'pert' and grads:
-                nat['grad'] = np.array(cg.get_grad(xs))[sel]
-                nat['jac'] = np.array(rg.get_grad(xs)).reshape(
-                    len(nat['resid']), -1)[:, sel]
-            lines = lean_lines(tg, Ux, [dUx[i] for i in sel], exact)
-            name = {'U': 'unitary', 'S': 'state', 'Y': 'system'}[kind]
+                pert = f'{q_of(a_)} {q_of(b_)} {ca} {cb}'
+            line = (f'xcirc {kind} {nd} | ' + ' '.join(map(str, radixes))
+                    + f' | {q_of(c_)} {q_of(s_)} | {pert} | '
+                    + (' '.join(map(str, cols)) if cols else '-')
+                    + ''.join(optxt))
+            replay = {'section': 'exact', 'radixes': list(radixes),
+                      'ops': [[k, list(l)] for k, l in ops], 'params': xs,
+                      'target_kind': kind, 'flavour': flavour,
+                      'lambda': [str(c_), str(s_)], 'pert': pert,
+                      'cols': cols}
             ck.bump('exact_points', f'{name}/{flavour}')
             ck.count(('exact', tuple(radixes), tuple(ops), tuple(xs), kind,
                       flavour))
-            self.lean_req.append((lines, tg, nat,
-                                  dict(replay, flavour=flavour,
-                                       target=_target_dump(tg)),
-                                  name, tag, flavour))
+            self.x_req.append((line, circuit, xs, kind, flavour, cols, nd,
+                               grads, replay, name, tag))
 
     # ......................................................... lean settle
+    def judge(self, kind, K, nat, reps, exact_fl):
+        """Engine values `nat` against the model's exact replies."""
+        problems = []
+        if kind in 'UY':
+            g = [x.strip() for x in reps[0].split('|')]
+            abs2, gap = Fraction(g[1]), Fraction(g[2])
+            gn = parse_qs(g[3]) if len(g) > 3 else []
+            c = nat['cost']
+            d = abs(c * (2 - c) - float(gap))
+            self.note('lean-cost-gap', d)
+            if d > 4 * TOL:
+                problems.append(f'cost*(2-cost)={c * (2 - c)!r} vs exact '
+                                f'1-|t|^2/K^2={float(gap)!r}')
+            if exact_fl == 'phase' and gap != 0:
+                problems.append(f'model: 1-|t|^2/K^2 = {gap} is not 0 at '
+                                'an exactly phase-equal target')
+            if exact_fl == 'pert' and not gap > 0:
+                problems.append('model: 1-|t|^2/K^2 is not > 0 at an '
+                                'exactly perturbed target')
+            if 'grad' in nat and abs2 > 0:
+                want = np.array([float(x) for x in gn]) / (
+                    K * math.sqrt(float(abs2)))
+                ok, d = self.close(nat['grad'], want, 4 * TOL)
+                self.note('lean-grad', d if d == d else 0)
+                if not ok:
+                    problems.append(f'grad {nat["grad"]} vs exact {want}')
+            g2 = [x.strip() for x in reps[1].split('|')]
+            rr = np.array([float(Fraction(x)) for x in g2[0].split()])
+            ok, d = self.close(nat['resid'], rr, 4 * TOL)
+            self.note('lean-resid', d if d == d else 0)
+            if not ok:
+                problems.append('residuals differ from the exact ones')
+            if 'jac' in nat:
+                for col, txt in enumerate(g2[2:]):
+                    jc = np.array([float(Fraction(x)) for x in txt.split()])
+                    ok, d = self.close(nat['jac'][:, col], jc, 4 * TOL)
+                    if not ok:
+                        problems.append(f'Jacobian column {col} differs')
+        else:
+            g = [x.strip() for x in reps[0].split('|')]
+            cost = Fraction(g[1])
+            gs = parse_qs(g[2]) if g[2] else []
+            rr = np.array([float(x) for x in parse_qs(g[3])])
+            d = abs(nat['cost'] - float(cost))
+            self.note('lean-state-cost', d)
+            if d > 4 * TOL:
+                problems.append(f'state cost {nat["cost"]!r} vs exact '
+                                f'{float(cost)!r}')
+            if exact_fl == 'phase' and cost != 0:
+                problems.append(f'model: state cost {cost} is not 0 at an '
+                                'exactly phase-equal target')
+            if exact_fl == 'pert' and not cost > 0:
+                problems.append('model: state cost is not > 0 at an exactly '
+                                'perturbed target')
+            if 'grad' in nat:
+                ok, d = self.close(nat['grad'],
+                                   [float(x) for x in gs], 4 * TOL)
+                if not ok:
+                    problems.append('state gradient differs')
+            ok, d = self.close(nat['resid'], rr, 4 * TOL)
+            if not ok:
+                problems.append('state residuals differ')
+            if 'jac' in nat:
+                for col, txt in enumerate(g[5:]):
+                    jc = np.array([float(Fraction(x)) for x in txt.split()])
+                    ok, d = self.close(nat['jac'][:, col], jc, 4 * TOL)
+                    if not ok:
+                        problems.append(f'Jacobian column {col} differs')
+        return problems
+
     def settle_lean(self):
         ck = self.ck
         lines = [l for req in self.lean_req for l in req[0]]
-        if not lines:
-            return
-        out = ck.driver('cost', lines)
+        out = ck.driver('cost', lines) if lines else []
         if len(out) != len(lines):
             raise RuntimeError('bqdriver cost: reply count mismatch')
         pos = 0
@@ -983,73 +983,8 @@ class Run:
             if any(rp == 'bad-op' for rp in reps):
                 raise RuntimeError('bqdriver cost rejected a request: '
                                    + req_lines[0][:200])
-            problems = []
-            if tg.kind in 'UY':
-                g = [x.strip() for x in reps[0].split('|')]
-                abs2, gap = Fraction(g[1]), Fraction(g[2])
-                gn = parse_qs(g[3]) if len(g) > 3 else []
-                c = nat['cost']
-                d = abs(c * (2 - c) - float(gap))
-                self.note('lean-cost-gap', d)
-                if d > 4 * TOL:
-                    problems.append(f'cost*(2-cost)={c * (2 - c)!r} vs exact '
-                                    f'1-|t|^2/K^2={float(gap)!r}')
-                if exact_fl == 'phase' and gap != 0:
-                    problems.append(f'model: 1-|t|^2/K^2 = {gap} is not 0 at '
-                                    'an exactly phase-equal target')
-                if exact_fl == 'pert' and not gap > 0:
-                    problems.append('model: 1-|t|^2/K^2 is not > 0 at an '
-                                    'exactly perturbed target')
-                if 'grad' in nat and abs2 > 0:
-                    want = np.array([float(x) for x in gn]) / (
-                        tg.K * math.sqrt(float(abs2)))
-                    ok, d = self.close(nat['grad'], want, 4 * TOL)
-                    self.note('lean-grad', d if d == d else 0)
-                    if not ok:
-                        problems.append(f'grad {nat["grad"]} vs exact {want}')
-                g2 = [x.strip() for x in reps[1].split('|')]
-                rr = np.array([float(Fraction(x)) for x in g2[0].split()])
-                ok, d = self.close(nat['resid'], rr, 4 * TOL)
-                self.note('lean-resid', d if d == d else 0)
-                if not ok:
-                    problems.append('residuals differ from the exact ones')
-                if 'jac' in nat:
-                    for col, txt in enumerate(g2[2:]):
-                        jc = np.array([float(Fraction(x))
-                                       for x in txt.split()])
-                        ok, d = self.close(nat['jac'][:, col], jc, 4 * TOL)
-                        if not ok:
-                            problems.append(f'Jacobian column {col} differs')
-            else:
-                g = [x.strip() for x in reps[0].split('|')]
-                cost = Fraction(g[1])
-                gs = parse_qs(g[2]) if g[2] else []
-                rr = np.array([float(x) for x in parse_qs(g[3])])
-                d = abs(nat['cost'] - float(cost))
-                self.note('lean-state-cost', d)
-                if d > 4 * TOL:
-                    problems.append(f'state cost {nat["cost"]!r} vs exact '
-                                    f'{float(cost)!r}')
-                if exact_fl == 'phase' and cost != 0:
-                    problems.append(f'model: state cost {cost} is not 0 at an '
-                                    'exactly phase-equal target')
-                if exact_fl == 'pert' and not cost >= 0:
-                    problems.append('model: state cost negative')
-                if 'grad' in nat:
-                    ok, d = self.close(nat['grad'],
-                                       [float(x) for x in gs], 4 * TOL)
-                    if not ok:
-                        problems.append('state gradient differs')
-                ok, d = self.close(nat['resid'], rr, 4 * TOL)
-                if not ok:
-                    problems.append('state residuals differ')
-                if 'jac' in nat:
-                    for col, txt in enumerate(g[5:]):
-                        jc = np.array([float(Fraction(x))
-                                       for x in txt.split()])
-                        ok, d = self.close(nat['jac'][:, col], jc, 4 * TOL)
-                        if not ok:
-                            problems.append(f'Jacobian column {col} differs')
+            problems = self.judge(tg.kind, getattr(tg, 'K', 1), nat, reps,
+                                  exact_fl)
             if problems:
                 # the numpy oracle has already judged this case; a surviving
                 # disagreement is between the engine and the Lean formulas
@@ -1062,6 +997,72 @@ class Run:
                               reply=[r[:300] for r in reps]),
                          found=False)
         self.lean_req = []
+        self.settle_exact()
+
+    def settle_exact(self):
+        """xcirc replies: the model's exact circuit unitary against
+        circuit.get_unitary, then the engine on the model's exact target."""
+        from bqskit.ir.opt.cost.functions import (
+            HilbertSchmidtCostGenerator, HilbertSchmidtResidualsGenerator)
+        ck = self.ck
+        if not self.x_req:
+            return
+        out = ck.driver('cost', [r[0] for r in self.x_req])
+        if len(out) != len(self.x_req):
+            raise RuntimeError('bqdriver cost: reply count mismatch')
+        for rep, (line, circuit, xs, kind, flavour, cols, nd, grads, replay,
+                  name, tag) in zip(out, self.x_req):
+            if rep == 'bad-op':
+                raise RuntimeError('bqdriver cost rejected: ' + line[:300])
+            ck.bump('traces_validated_against_impl')
+            parts = [x.strip() for x in rep.split('#')]
+            n = circuit.dim
+            radixes = list(circuit.radixes)
+            Um = parse_cmat(parts[0], n, n)
+            Wf = parse_cmat(parts[1], n, n)
+            Uf = np.array(circuit.get_unitary(xs))
+            dU = float(np.max(np.abs(Um - Uf)))
+            self.note('model-circuit-unitary', dU)
+            if dU > 1e-10:
+                self.bad('model-circuit-product-vs-get_unitary',
+                         'the model\'s ordered product of the embedded gate '
+                         'matrices (Model/CostCirc.lean) differs from '
+                         'circuit.get_unitary (C06 territory; the exact '
+                         'reference of this check is unusable)',
+                         dict(replay, request=line[:400]), found=False)
+                continue
+            if kind == 'U':
+                tg = Target('U', radixes, T=Wf)
+            elif kind == 'S':
+                tg = Target('S', radixes, psi=Wf[:, 0])
+            else:
+                E = np.eye(n, dtype=np.complex128)
+                tg = Target('Y', radixes,
+                            pairs=[(E[:, j], Wf[:, j]) for j in cols])
+            cg = HilbertSchmidtCostGenerator().gen_cost(circuit, tg.obj)
+            rg = HilbertSchmidtResidualsGenerator().gen_cost(circuit, tg.obj)
+            nat = {'cost': cg.get_cost(xs),
+                   'resid': np.array(rg.get_residuals(xs))}
+            if nd and flavour == 'pert' and grads:
+                nat['grad'] = np.array(cg.get_grad(xs))[:nd]
+                nat['jac'] = np.array(rg.get_grad(xs)).reshape(
+                    len(nat['resid']), -1)[:, :nd]
+            if flavour == 'phase' and not abs(nat['cost']) <= TOL:
+                self.bad(f'cost-nonzero-at-exact-phase-equal-{name}',
+                         f'cost {nat["cost"]!r} is not 0 although the target '
+                         'is exactly a phase multiple of the circuit\'s '
+                         f'exact unitary ({name})', replay)
+            problems = self.judge(kind, getattr(tg, 'K', 1), nat, parts[2:4],
+                                  flavour)
+            if problems:
+                self.bad(f'cost-model-correspondence-{name}',
+                         f'engine values and the Lean cost model disagree at '
+                         f'an exact point ({name}, path {tag}): '
+                         + '; '.join(problems[:3]) + ' (correspondence '
+                         'bqdriver cost <-> bqskitrs no longer checks)',
+                         dict(replay, request=line[:400], reply=rep[:400]),
+                         found=False)
+        self.x_req = []
 
 
 def _dump(a):
@@ -1667,7 +1668,22 @@ def section_select(R: Run, ncases: int):
                                      b'qfactor', Minimization, QFactor])
                 mtxt = 'other'
             chosen.clear()
-            tgt = UnitaryMatrix(np.eye(circuit.dim), list(radixes), False)
+            # one case in four: a target of the wrong dimension (safe here:
+            # no optimiser runs, multi_start_instantiate_inplace is a recorder)
+            trad = list(radixes)
+            if rng.random() < 0.25:
+                trad = rng.choice([trad + [2], trad[:-1] or [3],
+                                   [3] * len(trad) if 2 in trad
+                                   else [2] * len(trad)])
+            tdim = math.prod(trad)
+            tk = rng.choice('USY')
+            if tk == 'U':
+                tgt = UnitaryMatrix(np.eye(tdim), trad, False)
+            else:
+                from bqskit.qis.state.state import StateVector
+                from bqskit.qis.state.system import StateSystem
+                e0 = StateVector(np.eye(tdim)[:, 0], trad, False)
+                tgt = e0 if tk == 'S' else StateSystem({e0: e0})
             p0 = circuit.params.copy()
             try:
                 with warnings.catch_warnings():
@@ -1705,12 +1721,16 @@ def section_select(R: Run, ncases: int):
                 want = 'given' if Given.cap else 'err value'
             else:
                 want = 'err type'
-            lines.append(f'select {caps} | {mtxt}')
+            if not want.startswith('err') and tdim != circuit.dim:
+                want = 'err value'      # documented ValueError (e23425b)
+                ck.bump('selection_wrong_dimension_targets', tk)
+            lines.append(f'select {caps} | {mtxt} | {tdim} {circuit.dim}')
             meta.append((impl, want, {
                 'section': 'select', 'radixes': list(radixes),
                 'ops': [[k, list(l)] for k, l in ops], 'method': repr(method),
-                'gate_caps': caps}))
-            ck.count(('select', tuple(radixes), tuple(ops), mtxt))
+                'gate_caps': caps, 'target_kind': tk,
+                'target_radixes': trad}))
+            ck.count(('select', tuple(radixes), tuple(ops), mtxt, tk, tdim))
             ck.bump('selection_cases', mk)
             ck.bump('selection_outcomes', impl)
     finally:
@@ -1820,12 +1840,6 @@ def section_setparams(R: Run, ncases: int):
 
 
 # ................................................................ malformed
-REPRO_DIM = (
-    "c = Circuit(2); c.append_gate(U3Gate(), 0); "
-    "c.append_gate(CNOTGate(), (0, 1)); "
-    "c.instantiate(UnitaryMatrix(np.eye(2)))")
-
-
 @contextlib.contextmanager
 def quiet_stderr():
     """Silence fd 2 (Rust panic messages of the engine) for a moment."""
@@ -1841,8 +1855,38 @@ def quiet_stderr():
         os.close(saved)
 
 
-def _dim_mismatch_child(conn):
-    from bqskit.ir.gates import U3Gate, CNOTGate
+DIM_PROBES = [
+    # (target kind, qudits of the target, method) for a 2-qubit circuit
+    ('U', 1, 'default'), ('U', 3, 'default'), ('S', 1, 'default'),
+    ('S', 3, 'default'), ('Y', 1, 'default'), ('Y', 3, 'default'),
+    ('U', 1, 'lbfgs'), ('S', 1, 'scipy'), ('U', 1, 'qfactor'),
+    ('U', 3, 'by-name'),
+]
+
+
+def _dim_probe_target(kind, nq, seed):
+    from bqskit.qis.state.state import StateVector
+    from bqskit.qis.state.system import StateSystem
+    nrng = np.random.default_rng(seed)
+    dim = 2 ** nq
+    W = rand_unitary(nrng, dim)
+    if kind == 'U':
+        return UnitaryMatrix(W, [2] * nq, False)
+    if kind == 'S':
+        return StateVector(W[:, 0], [2] * nq, False)
+    E = np.eye(dim, dtype=np.complex128)
+    return StateSystem({StateVector(E[:, j], [2] * nq, False):
+                        StateVector(W[:, j], [2] * nq, False)
+                        for j in range(min(2, dim))})
+
+
+def _dim_mismatch_child(conn, kind, nq, method, seed):
+    """Runs in a forked child: before /repo e23425b the engine panicked
+    inside the optimiser callback and killed the interpreter (SIGABRT)."""
+    from bqskit.ir.gates import U3Gate, CNOTGate, VariableUnitaryGate
+    from bqskit.ir.opt.cost.functions import HilbertSchmidtCostGenerator
+    from bqskit.ir.opt.instantiaters import Minimization
+    from bqskit.ir.opt.minimizers import LBFGSMinimizer, ScipyMinimizer
     os.dup2(os.open(os.devnull, os.O_WRONLY), 2)
     try:
         import resource
@@ -1850,15 +1894,47 @@ def _dim_mismatch_child(conn):
     except Exception:
         pass
     c = Circuit(2)
-    c.append_gate(U3Gate(), 0)
-    c.append_gate(CNOTGate(), (0, 1))
+    if method == 'qfactor':
+        c.append_gate(VariableUnitaryGate(1), 0)
+        c.append_gate(VariableUnitaryGate(2), (0, 1))
+    else:
+        c.append_gate(U3Gate(), 0)
+        c.append_gate(CNOTGate(), (0, 1))
+        c.append_gate(U3Gate(), 1)
+    m = {'default': None, 'qfactor': 'qfactor', 'by-name': 'Minimization',
+         'lbfgs': Minimization(HilbertSchmidtCostGenerator(),
+                               LBFGSMinimizer()),
+         'scipy': Minimization(HilbertSchmidtCostGenerator(),
+                               ScipyMinimizer())}[method]
+    p0 = np.array(c.params)
     try:
-        c.instantiate(UnitaryMatrix(np.eye(2)))
-        conn.send('RETURNED')
+        c.instantiate(_dim_probe_target(kind, nq, seed), method=m,
+                      multistarts=2)
+        out = 'RETURNED'
     except ValueError:
-        conn.send('VALUEERROR')
+        out = 'VALUEERROR'
     except BaseException as e:
-        conn.send('OTHER ' + type(e).__name__)
+        out = 'OTHER ' + type(e).__name__
+    if not np.array_equal(p0, np.array(c.params)):
+        out += ' params-changed'
+    conn.send(out)
+
+
+def dim_probe(kind, nq, method, seed):
+    import multiprocessing as mp
+    ctx = mp.get_context('fork')
+    rx, tx = ctx.Pipe(duplex=False)
+    pr = ctx.Process(target=_dim_mismatch_child,
+                     args=(tx, kind, nq, method, seed))
+    pr.start()
+    tx.close()
+    pr.join(180)
+    if pr.is_alive():
+        pr.kill()
+        return 'timeout'
+    if pr.exitcode == 0 and rx.poll():
+        return rx.recv()
+    return f'exit {pr.exitcode}'
 
 
 def section_malformed(R: Run):
@@ -1914,31 +1990,26 @@ def section_malformed(R: Run):
             R.bad('instantiate-argument-contract',
                   f'Circuit.instantiate(**{kw}) must raise {want.__name__} '
                   f'and leave the circuit alone, got {out}', {'kwargs': str(kw)})
-    # documented: ValueError if the target dimension does not match - run in
-    # a forked child because the engine aborts the interpreter
-    import multiprocessing as mp
-    ctx = mp.get_context('fork')
-    rx, tx = ctx.Pipe(duplex=False)
-    pr = ctx.Process(target=_dim_mismatch_child, args=(tx,))
-    pr.start()
-    tx.close()
-    pr.join(120)
-    if pr.is_alive():
-        pr.kill()
-        status = 'timeout'
-    elif pr.exitcode == 0 and rx.poll():
-        status = rx.recv()
-    else:
-        status = f'exit {pr.exitcode}'
-    ck.coverage['dimension_mismatch_instantiate'] = status
-    if status != 'VALUEERROR':
-        R.bad('instantiate-target-dimension-mismatch-' + (
-            'aborts-process' if status.startswith('exit') else
-            status.lower().replace(' ', '-')),
-            'Circuit.instantiate documents "ValueError: If target dimension '
-            'doesn\'t match with circuit"; Circuit(2).instantiate(<1-qubit '
-            f'unitary>) ends with {status} (child process)',
-            {'script': REPRO_DIM, 'status': status})
+    # documented (and since /repo e23425b implemented): ValueError if the
+    # target dimension does not match.  Every probe runs in a forked child
+    # because without that check the engine aborts the interpreter.
+    names = {'U': 'unitary', 'S': 'state', 'Y': 'system'}
+    for kind, nq, method in DIM_PROBES:
+        status = dim_probe(kind, nq, method, rng.randrange(1 << 30))
+        ck.bump('dimension_mismatch_instantiate',
+                f'{names[kind]}/{nq}q/{method}:{status}')
+        ck.count(('dim-probe', kind, nq, method))
+        if status != 'VALUEERROR':
+            how = ('aborts-process' if status.startswith('exit') else
+                   status.lower().replace(' ', '-'))
+            R.bad(f'instantiate-target-dimension-mismatch-{names[kind]}-'
+                  f'{how}',
+                  'Circuit.instantiate documents "ValueError: If target '
+                  'dimension doesn\'t match with circuit": a 2-qubit circuit '
+                  f'instantiated (method {method}) against a {nq}-qubit '
+                  f'{names[kind]} target ends with "{status}" (forked child)',
+                  {'section': 'dimension-mismatch', 'target_kind': kind,
+                   'target_qubits': nq, 'method': method, 'status': status})
 
 
 # ---------------------------------------------------------------------- run
